@@ -3,7 +3,6 @@
 #include "../common/engine.hpp"
 #include "../common/keygen.hpp"
 #include "pgm/pgm_index_variants.hpp"
-#include <omp.h>
 #include <sstream>
 
 #ifndef VF_KF3_EXCLUDE
@@ -129,7 +128,7 @@ CaseResult run_compressed(const RunCtx &ctx, TapeReader &t, unsigned size_hint) 
     if (!ctx.execute) return res;
     const bool mem = ctx.mode == "mem";
 
-    omp_set_num_threads(meta.threads);
+    vf_set_threads(meta.threads);
     using Index = pgm::CompressedPGMIndex<K, Eps, ER, F>;
     std::unique_ptr<Index> idx;
     try {
@@ -213,7 +212,7 @@ CaseResult run_bucketing(const RunCtx &ctx, TapeReader &t, unsigned size_hint) {
     const bool mem = ctx.mode == "mem";
     const size_t n = keys.size();
 
-    omp_set_num_threads(meta.threads);
+    vf_set_threads(meta.threads);
     using Index = BucketProbe<K, Eps, TLS, TLB, F>;
     std::unique_ptr<Index> idx;
     try {
@@ -336,7 +335,7 @@ CaseResult run_ef(const RunCtx &ctx, TapeReader &t, unsigned size_hint) {
     if (!ctx.execute) return res;
     const bool mem = ctx.mode == "mem";
 
-    omp_set_num_threads(meta.threads);
+    vf_set_threads(meta.threads);
     using Index = EFProbe<K, Eps, F>;
     std::unique_ptr<Index> idx;
     try {
